@@ -72,6 +72,7 @@ let () =
           | "3" -> local6531A g b e
           | "4" -> ipv4A b O e | "6" -> ipv6A b O e | "P" -> ipaddrA b O e
           | "S" -> specialA b e
+          | "a" -> emailA table g.uscore b M822 true e | "b" -> emailA table g.uscore b M5321 true e | "c" -> emailA table g.uscore b M5322 true e
           | _ -> ascii_domainA g.uscore b e) in
         let rec go k = (match call (firstn k full) with
           | FaultA i -> let i = int_of_nat i in if i + 1 > List.length full then out "BEYOND\n" else go (i + 1)
